@@ -214,7 +214,8 @@ def _db_mapv(dbmodel, expression):
     )
 
 
-def _db_maximum_expr(dbmodel, expression):
+def _db_fmax_expr(dbmodel, expression):
+    # a NULL operand is skipped (numpy.fmax ignores missing values)
     x_expr = dbmodel.expr_to_sql(expression.args[0], want_inline_parens=True)
     y_expr = dbmodel.expr_to_sql(expression.args[1], want_inline_parens=True)
     return (
@@ -245,7 +246,8 @@ def _db_maximum_expr(dbmodel, expression):
     )
 
 
-def _db_fmax_expr(dbmodel, expression):
+def _db_maximum_expr(dbmodel, expression):
+    # a NULL operand gives NULL (numpy.maximum propagates missing values)
     x_expr = dbmodel.expr_to_sql(expression.args[0], want_inline_parens=True)
     y_expr = dbmodel.expr_to_sql(expression.args[1], want_inline_parens=True)
     return (
@@ -270,7 +272,8 @@ def _db_fmax_expr(dbmodel, expression):
     )
 
 
-def _db_minimum_expr(dbmodel, expression):
+def _db_fmin_expr(dbmodel, expression):
+    # a NULL operand is skipped (numpy.fmin ignores missing values)
     x_expr = dbmodel.expr_to_sql(expression.args[0], want_inline_parens=True)
     y_expr = dbmodel.expr_to_sql(expression.args[1], want_inline_parens=True)
     return (
@@ -301,7 +304,8 @@ def _db_minimum_expr(dbmodel, expression):
     )
 
 
-def _db_fmin_expr(dbmodel, expression):
+def _db_minimum_expr(dbmodel, expression):
+    # a NULL operand gives NULL (numpy.minimum propagates missing values)
     x_expr = dbmodel.expr_to_sql(expression.args[0], want_inline_parens=True)
     y_expr = dbmodel.expr_to_sql(expression.args[1], want_inline_parens=True)
     return (
